@@ -97,9 +97,10 @@ PROPS["C13"] = {
     "claim": "deep_equal / deep_equal_xpath / deep_equal_children / advanced_deep_equal / shallow_equal(_ignore_attributes) / "
              "string_value agree with a canonical-form oracle computed from the read-back, for all contents",
     "harnesses": [H("h_c13_deep_equal", shards={"quick": shard_product(("shape", 4), ("va", 2)), "thorough": shard_product(("shape", 4), ("va", 2))}),
-                  H("h_c13_shallow", shards={"quick": shard_choose("vb", 7), "thorough": shard_choose("vb", 7)})],
+                  H("h_c13_shallow", shards={"quick": shard_choose("vb", 7), "thorough": shard_choose("vb", 7)}),
+                  H("h_c13_leaves", shards={"quick": shard_choose("ka", 11), "thorough": shard_choose("ka", 11)})],
     "bounds": {"quick": "pairs (base subtree of 4 shapes x 2, one-feature variant out of 13) with every attribute value / text / "
-                        "comment / PI content symbolic (1 char each); 6 ignore lists incl. repeated and absent names",
+                        "comment / PI content symbolic (1 char each); 6 ignore lists incl. repeated and absent names; every pair of 11 kinds of single leaf node (text, comment, PI with / without data and two targets, attribute nodes, namespace nodes) with symbolic contents",
                "thorough": "same"},
     "outside": "subtrees larger than 5 nodes; contents longer than one character; triples (transitivity follows from the "
                "canonical-form equivalence that is asserted pairwise)",
@@ -111,7 +112,10 @@ C05_SHARDS = ["shape=%d;consolidate=%d;op=%d" % (s_, c, o) for s_ in range(7) fo
 PROPS["C05"] = {
     "claim": "one successful manipulation call under its documented preconditions leaves exactly the forest an ordered-tree "
              "reference model predicts (position, identity of every other node, merged text contents, liveness)",
-    "harnesses": [H("h_c05_model", shards={"quick": C05_SHARDS, "thorough": C05_SHARDS}, budget=(900, 3000))],
+    "harnesses": [H("h_c05_model", shards={"quick": C05_SHARDS, "thorough": C05_SHARDS}, budget=(900, 3000)),
+                  # "attribute / namespace updates touch exactly one entry": the reference-map harnesses of C11
+                  H("h_c11_attrs", {"STEPS": 1}, {"STEPS": 1}, shards={"quick": shard_product(("nn", 3), ("na", 3)), "thorough": shard_product(("nn", 3), ("na", 3))}),
+                  H("h_c11_namespaces", {"STEPS": 1}, {"STEPS": 1}, shards={"quick": shard_product(("nn", 3), ("na", 2)), "thorough": shard_product(("nn", 3), ("na", 2))})],
     "bounds": {"quick": "7 start forests x consolidation on/off x 11 operations x every argument tuple satisfying the "
                         "preconditions; all text contents symbolic", "thorough": "same"},
     "outside": "sequences of more than one call (C04 covers two-call histories structurally); which of two merged text nodes "
@@ -123,9 +127,9 @@ PROPS["C11"] = {
     "claim": "after every map-style or node-style update both views of the attribute map and of the namespace map agree "
              "with a reference insertion-ordered map on every accessor; updates keep node and position; the other map and "
              "the children are untouched",
-    "harnesses": [H("h_c11_attrs", {"STEPS": 1}, {"STEPS": 2}, shards={"quick": shard_product(("nn", 3), ("na", 3)), "thorough": shard_product(("nn", 3), ("na", 3), ("op", 14))}),
+    "harnesses": [H("h_c11_attrs", {"STEPS": 1}, {"STEPS": 2}, shards={"quick": shard_product(("nn", 3), ("na", 3)), "thorough": shard_product(("nn", 3), ("na", 3), ("op", 16))}),
                   H("h_c11_namespaces", {"STEPS": 1}, {"STEPS": 2}, shards={"quick": shard_product(("nn", 3), ("na", 2)), "thorough": shard_product(("nn", 3), ("na", 2))})],
-    "bounds": {"quick": "element with 0-2 namespace and 0-2 attribute nodes, 1 update out of 14 (attributes) / 10 (namespaces) "
+    "bounds": {"quick": "element with 0-2 namespace and 0-2 attribute nodes, 1 update out of 16 (attributes, incl. the occupied / vacant entry API) / 10 (namespaces) "
                         "on 3 keys, values symbolic", "thorough": "every sequence of 2 updates"},
     "outside": "to_hashmap beyond size and per-key lookup (HashMap is summarised); serialisation order of the entries (see C01/C16)",
     "assumptions": [],
